@@ -57,7 +57,9 @@ def det_cases(draw, tier="quick"):
             "e": float(10 ** draw(st.floats(-4, 0.7))),
             # (not exactly 1.0: the legacy sampler reads adapt_step_size == 1.0 as True, i.e. 'adapt')
             "eps": draw(st.sampled_from([1e-3, 0.05, 0.2, 0.35, 0.5, 0.7, 0.9, 1.3, 2.0, 4.0])), "depth": draw(st.integers(0, 4)),
-            "interface": draw(st.sampled_from(["experimental", "legacy"])), "useed": draw(st.integers(0, 10 ** 6))}
+            "interface": draw(st.sampled_from(["experimental", "legacy"])), "useed": draw(st.integers(0, 10 ** 6)),
+            # legacy interface: the sampler object has already produced a chain from another start before it is given x0
+            "reuse": draw(st.booleans())}
 
 
 def orbit(T, x0, r0, eps, K):
@@ -140,12 +142,24 @@ def run_det(c, rec):
                 s.warmup(1, tune_freq=1.0)   # exactly one transition followed by one tuning update
             new = np.asarray(s.current_point, dtype=float).reshape(-1).copy()
         else:
-            s = cuqi.sampler.NUTS(dist, x0=x0.copy(), max_depth=D, adapt_step_size=eps)
+            if c.get("reuse"):
+                s = cuqi.sampler.NUTS(dist, x0=x0 + 0.37, max_depth=D, adapt_step_size=eps)
+                np.random.seed(c["useed"] % (2 ** 31))
+                try:
+                    s.sample(2)
+                finally:
+                    np.random.seed()
+                s.x0 = x0.copy()
+            else:
+                s = cuqi.sampler.NUTS(dist, x0=x0.copy(), max_depth=D, adapt_step_size=eps)
             T.calls.clear()
             with patched_global(rng):
                 S = s.sample(2)
-            new = np.asarray(S.samples, dtype=float)[:, 1].copy()
-            T.calls.pop(0)  # evaluation at x0
+            X2 = np.asarray(S.samples, dtype=float)
+            require(maxdiff(X2[:, 0], x0) == 0, "legacy NUTS: the first stored state is not the start point x0", got=X2[:, 0], x0=x0)
+            new = X2[:, 1].copy()
+            if T.calls and maxdiff(T.calls[0], x0) == 0:
+                T.calls.pop(0)  # evaluation at x0
     except NameError as e:  # 'NaN potential func': the sampler refuses to continue
         rec.classify({"interface": c["interface"], "result": "refused_nan"}, False)
         return
